@@ -84,7 +84,11 @@ def run(ctx: Ctx) -> Report:
     kinds = {}
     for c in cases:
         kinds[c["ev"]["ev"]] = kinds.get(c["ev"]["ev"], 0) + 1
-    rep.parts["S2C_spaces"] = {"spaces": len(spaces), "cases": kinds, "accepted": len(v.accepted), "rejected": len(v.rejected)}
+    rekeyed = sum(1 for c in cases if c["ev"].get("rekeyed"))
+    rep.parts["S2C_spaces"] = {"spaces": len(spaces), "cases": kinds, "flatten_of_rekeyed_dictionary_members": rekeyed,
+                               "accepted": len(v.accepted), "rejected": len(v.rejected)}
+    if not rekeyed and not rep.violations and any(t["k"] == "Dict" and len(t["keys"]) >= 2 for t in spaces):
+        rep.notes.append("no re-keyed dictionary value was accepted as a member by the implementation: flatten judged on space-ordered values only")
     for i, (l, clauses) in sorted(v.rejected.items()):
         t, ev = cases[i]["sp"], cases[i]["ev"]
         rep.violations.append(Violation(key_of(t, ev, clauses), f"space {t}: {ev['ev']} violates {clauses}: "
